@@ -956,6 +956,12 @@ func (c *Conn) flush() error {
 		}
 	}
 
+	// no data left to be written, clear write deadline timer.
+	if c.wTimer != nil {
+		c.wTimer.Stop()
+		c.wTimer = nil
+	}
+
 	c.resetRead()
 
 	return nil
